@@ -10,7 +10,7 @@ var props = []PropSpec{
 		Explanation: "bounded symbolic execution of the real Pratt parser (parser.expression) on `a OP b OP c OP d` where every operator token kind is a solver variable ranging over all infix and assignment operator tokens (lexer replaced by a stub serving the kinds); the parsed tree's bracket structure is compared with a reference splitter written from the operator table in the property statement; prefix/postfix/as/layout variants run through the real lexer",
 		Harnesses: []HarnessSpec{
 			{Pkg: "homescript/parser", Func: "VerifHarness_Precedence", Quick: map[string]int{"OPS": 2}, Thor: map[string]int{"OPS": 3}, Require: []string{"parsed"},
-				Overrides: map[string]string{"(*~/homescript/lexer.Lexer).NextToken": "~/homescript/parser.verifStubNextToken"},
+				Overrides: map[string]string{"(*~/homescript/lexer.Lexer).NextToken": "~/homescript/lexer.VerifStubNextToken"},
 				What: "every ordered pair (thorough: triple) of binary operators with symbolic token kinds: bracket structure = operator table (assignment < || < && < | < ^ < & < equality < comparison < shift < additive < multiplicative < **, ** right-assoc, others left-assoc)"},
 			{Pkg: "homescript/parser", Func: "VerifHarness_PrefixPostfix", Quick: map[string]int{}, Require: []string{"parsed"},
 				What: "prefix (! - ?) x postfix (call, index, member) x 13 binary operators on both operands; whitespace/comment and parenthesised-operand layout variants give the same tree"},
@@ -120,8 +120,12 @@ var props = []PropSpec{
 		Harnesses: []HarnessSpec{
 			{Pkg: "homescript/parser", Func: "VerifHarness_ParseTokens", Quick: map[string]int{"L": 3}, Thor: map[string]int{"L": 5}, ThorPaths: 3000000, ThorSecs: 2400, Require: []string{"parsed"},
 				Opts: gosym.Options{MaxSteps: 300000, BoundIsViolation: true},
-				Overrides: map[string]string{"(*~/homescript/lexer.Lexer).NextToken": "~/homescript/parser.verifStubNextToken", "(~/homescript/lexer.TokenKind).String": "~/homescript/parser.verifStubKindString"},
+				Overrides: map[string]string{"(*~/homescript/lexer.Lexer).NextToken": "~/homescript/lexer.VerifStubNextToken", "(~/homescript/lexer.TokenKind).String": "~/homescript/lexer.VerifStubKindString"},
 				What: "Parser.Parse over every sequence of <=L tokens whose kinds are solver variables (lexer replaced by a stub serving the kinds, optional lexer error at any position): no panic, terminates within the step bound"},
+			{Pkg: "homescript", Func: "VerifHarness_EditAnalyze", Quick: map[string]int{}, Require: []string{"done", "analyzed", "syntax-error"},
+				Opts: gosym.Options{MaxSteps: 1500000, BoundIsViolation: true},
+				Overrides: map[string]string{"(*~/homescript/lexer.Lexer).NextToken": "~/homescript/lexer.VerifStubNextToken", "(~/homescript/lexer.TokenKind).String": "~/homescript/lexer.VerifStubKindString"},
+				What: "8 seed programs x every token position x {replace by a token of symbolic kind, delete, truncate}: Parse + Analyze (with an importable module) never panic and terminate"},
 			{Pkg: "homescript/lexer", Func: "VerifHarness_LexSmoke", Quick: map[string]int{"K": 3}, Thor: map[string]int{"K": 5}, Require: []string{"returned"},
 				What: "one NextToken call on any window of <=K valid runes: no panic, progress, cursor in range"},
 		},
